@@ -1,1 +1,191 @@
+(** Cache coherence over all histories: the memoised cache is always None or exactly the cache
+    of the current content -- hence every query answers as a fresh model with the same content. *)
+From Coq Require Import ZArith List Bool.
+From MxlBase Require Import ListX.
+From Core Require Import Sort GenSortFacts FnLib Model Cache Query.
+From Edit Require Import GenEditFacts ModelSM.
+Import ListNotations.
 
+Definition coherent (s : st) : Prop :=
+  forall c, s_cache s = Some c ->
+            create_cache FnLib.fsem FnLib.fsemN gen_sort_facts (s_m s) = Val c.
+
+(** the methods that write containers directly; wrappers (scale_parameter,
+    make_variable_static) only go through other public mutators *)
+Definition primitive (mu : mutator) : bool :=
+  match mu with ScalePar _ _ | MakeVarStatic _ _ => false | _ => true end.
+
+Section WithFacts.
+  (** what C03_facts_pinned establishes for the regenerated table *)
+  Hypothesis all_invalidate : forall mu, primitive mu = true -> invalidates (method_of mu) = true.
+
+  Lemma coherent_none ids m : coherent (mkSt ids m None).
+  Proof. intros c H. discriminate H. Qed.
+
+  Lemma ensure_cache_coherent s rc s' :
+    coherent s -> ensure_cache s = (rc, s') ->
+    coherent s' /\ s_m s' = s_m s /\ s_ids s' = s_ids s /\
+    (forall c, rc = Val c -> s_cache s' = Some c) /\
+    rc = match s_cache s with
+         | Some c => Val c
+         | None => create_cache FnLib.fsem FnLib.fsemN gen_sort_facts (s_m s)
+         end.
+  Proof.
+    unfold ensure_cache. intros Hc H. destruct (s_cache s) as [c|] eqn:Ec.
+    - injection H as <- <-. repeat split; auto. intros c' Hc'. injection Hc' as <-. exact Ec.
+    - destruct (create_cache _ _ _ (s_m s)) as [c|e] eqn:Ecc; injection H as <- <-.
+      + repeat split; auto.
+        * intros c' Hc'. cbn in Hc'. injection Hc' as <-. exact Ecc.
+        * intros c' Hc'. injection Hc' as <-. reflexivity.
+      + repeat split; auto. intros c' Hc'. discriminate Hc'.
+  Qed.
+
+  (** a state whose cache is None stays coherent whatever happens to its content, as long as the
+      cache field is only ever copied or cleared -- captured by: result cache None, or state
+      untouched, or (content untouched and coherent) *)
+  Definition safe (s s' : st) : Prop :=
+    s_cache s' = None \/ (coherent s -> coherent s' /\ s_m s' = s_m s).
+
+  Lemma safe_coherent s s' : coherent s -> safe s s' -> coherent s'.
+  Proof.
+    intros Hc [Hn|H].
+    - intros c Hc'. rewrite Hn in Hc'. discriminate Hc'.
+    - apply H. exact Hc.
+  Qed.
+
+
+  Lemma body_add_safe s n k store : s_cache s = None -> safe s (fst (body_add s n k store)).
+  Proof.
+    intros Hn. unfold body_add. destruct (ins_id n k (s_ids s)); cbn [fst]; left; cbn; exact Hn.
+  Qed.
+
+  Lemma body_remove_safe s n p drop : s_cache s = None -> safe s (fst (body_remove s n p drop)).
+  Proof.
+    intros Hn. unfold body_remove. destruct (negb p); cbn [fst]; [left; exact Hn|].
+    destruct (rem_id n (s_ids s)); cbn [fst]; left; cbn; exact Hn.
+  Qed.
+
+  (** main lemma: a body entered with a coherent state -- and, for primitive methods, entered
+      through the decorator (cache None) -- ends in a coherent state *)
+  Lemma body_coherent :
+    forall fuel s mu,
+      coherent s -> (primitive mu = true -> s_cache s = None) ->
+      coherent (fst (body fuel s mu)).
+  Proof.
+    induction fuel as [|fuel IH]; intros s mu Hc Hp; [exact Hc|].
+    assert (Hrun : forall s1 mu1, coherent s1 ->
+               coherent (fst (body fuel (if invalidates (method_of mu1) then mkSt (s_ids s1) (s_m s1) None else s1) mu1))).
+    { intros s1 mu1 Hc1. apply IH.
+      - destruct (invalidates (method_of mu1)); [apply coherent_none|exact Hc1].
+      - intro Hprim. rewrite (all_invalidate mu1 Hprim). reflexivity. }
+    destruct mu; cbn [body]; try specialize (Hp eq_refl).
+    - (* AddPar *) eapply safe_coherent; [exact Hc|apply body_add_safe; exact Hp].
+    - eapply safe_coherent; [exact Hc|apply body_remove_safe; exact Hp].
+    - (* UpdatePar *) destruct (negb (has n (m_par (s_m s)))); [exact Hc|].
+      destruct v; [|exact Hc]. intros c H. cbn in H. rewrite Hp in H. discriminate H.
+    - (* ScalePar *)
+      destruct (lookup n (m_par (s_m s))) as [[old|f a]|]; [apply Hrun; exact Hc| |exact Hc].
+      destruct (ensure_cache s) as [rc s1] eqn:Ee.
+      destruct (ensure_cache_coherent s rc s1 Hc Ee) as [Hc1 _].
+      destruct rc as [c|e]; [|exact Hc1].
+      destruct (lookup n (c_all_par c)); [apply Hrun; exact Hc1|exact Hc1].
+    - (* MakeParDynamic *)
+      destruct (match v with Some x => Some x | None => lookup n (m_par (s_m s)) end); [|exact Hc].
+      destruct (negb (forallb _ _)); [exact Hc|].
+      pose proof (Hrun s (RemovePar n) Hc) as H1.
+      destruct (body fuel _ (RemovePar n)) as [s1 o1] eqn:E1. cbn [fst] in H1.
+      destruct o1; try exact H1.
+      pose proof (Hrun s1 (AddVar n v0) H1) as H2.
+      destruct (body fuel _ (AddVar n v0)) as [s2 o2] eqn:E2. cbn [fst] in H2.
+      destruct o2; try exact H2. cbn [fst].
+      (* the stoichiometry loop runs after AddVar went through the decorator: cache is None *)
+      assert (Hn2 : s_cache s2 = None).
+      { clear - E2 all_invalidate. rewrite (all_invalidate (AddVar n v0) eq_refl) in E2.
+        destruct fuel as [|fuel]; cbn [body] in E2; [inversion E2|].
+        unfold body_add in E2. cbn [s_ids s_m s_cache] in E2.
+        destruct (ins_id n KVar (s_ids s1)); inversion E2; reflexivity. }
+      intros c H. cbn in H. rewrite Hn2 in H. discriminate H.
+    - eapply safe_coherent; [exact Hc|apply body_add_safe; exact Hp].
+    - (* RemoveVar *)
+      destruct (negb (has n (m_var (s_m s)))); [exact Hc|].
+      destruct (rem_id n (s_ids s)); cbn [fst]; intros c H; cbn in H; rewrite Hp in H; discriminate H.
+    - (* UpdateVar *)
+      destruct (negb (has n (m_var (s_m s)))); [exact Hc|]. intros c H. cbn in H. rewrite Hp in H. discriminate H.
+    - (* MakeVarStatic *)
+      destruct (match v with Some x => Some x | None => lookup n (m_var (s_m s)) end); [|exact Hc].
+      pose proof (Hrun s (RemoveVar n true) Hc) as H1.
+      destruct (body fuel _ (RemoveVar n true)) as [s1 o1] eqn:E1. cbn [fst] in H1.
+      destruct o1; try exact H1. apply Hrun. exact H1.
+    - eapply safe_coherent; [exact Hc|apply body_add_safe; exact Hp].
+    - (* UpdateDer *)
+      destruct (lookup n (m_der (s_m s))); [|exact Hc]. intros c H. cbn in H. rewrite Hp in H. discriminate H.
+    - eapply safe_coherent; [exact Hc|apply body_remove_safe; exact Hp].
+    - eapply safe_coherent; [exact Hc|apply body_add_safe; exact Hp].
+    - (* UpdateRxn *)
+      destruct (lookup n (m_rxn (s_m s))); [|exact Hc]. intros c H. cbn in H. rewrite Hp in H. discriminate H.
+    - eapply safe_coherent; [exact Hc|apply body_remove_safe; exact Hp].
+    - eapply safe_coherent; [exact Hc|apply body_add_safe; exact Hp].
+    - eapply safe_coherent; [exact Hc|apply body_remove_safe; exact Hp].
+    - (* AddSur *)
+      destruct (bind (ins_id n KSur (s_ids s)) _); cbn [fst]; [|exact Hc].
+      intros c H. cbn in H. rewrite Hp in H. discriminate H.
+    - (* UpdateSur *)
+      destruct (lookup n (m_sur (s_m s))); [|exact Hc].
+      destruct (bind (rem_ids _ (s_ids s)) _); cbn [fst]; [|exact Hc].
+      intros c H. cbn in H. rewrite Hp in H. discriminate H.
+    - (* RemoveSur *)
+      destruct (lookup n (m_sur (s_m s))); [|exact Hc].
+      destruct (rem_id n (s_ids s)); [|exact Hc].
+      destruct (rem_ids _ _); cbn [fst]; intros c H; cbn in H; rewrite Hp in H; discriminate H.
+    - eapply safe_coherent; [exact Hc|apply body_add_safe; exact Hp].
+    - (* UpdateDat *)
+      destruct (negb (has n (m_dat (s_m s)))); [exact Hc|]. intros c H. cbn in H. rewrite Hp in H. discriminate H.
+    - eapply safe_coherent; [exact Hc|apply body_remove_safe; exact Hp].
+  Qed.
+
+  Lemma mutate_coherent s mu : coherent s -> coherent (fst (mutate s mu)).
+  Proof.
+    intros Hc. unfold mutate. apply body_coherent.
+    - destruct (invalidates (method_of mu)); [apply coherent_none|exact Hc].
+    - intro Hprim. rewrite (all_invalidate mu Hprim). reflexivity.
+  Qed.
+
+  Lemma ask_coherent s q : coherent s -> coherent (fst (ask s q)) /\ s_m (fst (ask s q)) = s_m s.
+  Proof.
+    intros Hc. unfold ask. destruct q; try (cbn [fst]; split; [exact Hc|reflexivity]);
+      destruct (ensure_cache s) as [rc s1] eqn:Ee;
+      destruct (ensure_cache_coherent s rc s1 Hc Ee) as [Hc1 [Hm _]];
+      destruct rc; cbn [fst]; split; assumption.
+  Qed.
+
+  Lemma step_coherent s o : coherent s -> coherent (fst (step s o)).
+  Proof.
+    intros Hc. destruct o; cbn [step]; [apply mutate_coherent; exact Hc|apply ask_coherent; exact Hc].
+  Qed.
+
+  Lemma fold_coherent h : forall s, coherent s -> coherent (fold_left (fun s o => fst (step s o)) h s).
+  Proof.
+    induction h as [|o h IH]; intros s Hc; cbn [fold_left]; [exact Hc|]. apply IH. apply step_coherent. exact Hc.
+  Qed.
+
+  Lemma history_coherent h : coherent (run_history h).
+  Proof. unfold run_history. apply fold_coherent. intros c H. discriminate H. Qed.
+
+  (** a coherent state answers every query exactly as the fresh model with the same content *)
+  Lemma ask_equals_fresh s q : coherent s -> snd (ask s q) = snd (ask (fresh s) q).
+  Proof.
+    intros Hc. unfold ask. destruct q; try reflexivity;
+      destruct (ensure_cache s) as [rc s1] eqn:E1;
+      destruct (ensure_cache (fresh s)) as [rc2 s2] eqn:E2;
+      destruct (ensure_cache_coherent s rc s1 Hc E1) as [_ [Hm1 [_ [_ Hrc1]]]];
+      destruct (ensure_cache_coherent (fresh s) rc2 s2 (coherent_none _ _) E2) as [_ [Hm2 [_ [_ Hrc2]]]];
+      cbn [fresh s_cache s_m] in Hrc2, Hm2;
+      assert (Hrc : rc = rc2) by
+          (rewrite Hrc1, Hrc2; destruct (s_cache s) as [c|] eqn:Ec; [symmetry; apply Hc; exact Ec|reflexivity]);
+      clear Hrc1 Hrc2; subst rc2; destruct rc as [c|e]; cbn [snd]; try reflexivity; rewrite ?Hm1, ?Hm2; reflexivity.
+  Qed.
+
+  Lemma history_equals_fresh h q :
+    snd (ask (run_history h) q) = snd (ask (fresh (run_history h)) q).
+  Proof. apply ask_equals_fresh. apply history_coherent. Qed.
+End WithFacts.
